@@ -25,6 +25,7 @@ import (
 	"github.com/pkg/errors"
 	metav1 "k8s.io/apimachinery/pkg/apis/meta/v1"
 	"k8s.io/apimachinery/pkg/labels"
+	"k8s.io/apimachinery/pkg/types"
 	"k8s.io/client-go/tools/cache"
 	"k8s.io/klog/v2"
 	"k8s.io/utils/clock"
@@ -53,6 +54,10 @@ type CronWorker struct {
 	schedule *cronschedule.Schedule
 	handler  EnqueueHandler
 	mu       sync.Mutex
+
+	// known contains the UIDs of all JobConfigs (by namespaced name) that were
+	// already loaded into the schedule, either on Init or when they were added.
+	known map[string]types.UID
 }
 
 // EnqueueHandler knows how to enqueue a JobConfig to be created.
@@ -89,6 +94,16 @@ func (w *CronWorker) Init() error {
 	}
 
 	w.schedule = sched
+
+	// Remember all JobConfigs that were loaded, so that their add events (which are
+	// also received for existing JobConfigs on startup) do not re-base them.
+	w.known = make(map[string]types.UID, len(jobConfigs))
+	for _, jobConfig := range jobConfigs {
+		if key, err := cache.MetaNamespaceKeyFunc(jobConfig); err == nil {
+			w.known[key] = jobConfig.GetUID()
+		}
+	}
+
 	return nil
 }
 
@@ -179,8 +194,18 @@ func (w *CronWorker) refreshUpdatedJobConfigs(now time.Time) {
 	// Perform at most 1000 flushes per iteration to prevent backlogging.
 	for flushes < 1000 {
 		select {
-		case jobConfig := <-w.updatedConfigs:
+		case req := <-w.updatedConfigs:
 			flushes++
+			jobConfig := req.jobConfig
+
+			// Start scheduling newly created JobConfigs from now. JobConfigs that were
+			// already loaded (i.e. on startup) must not be re-based, in order to retain any
+			// back-scheduling of missed schedules and to never schedule them twice.
+			if req.added {
+				if !w.isCurrentJobConfig(jobConfig) || !w.remember(jobConfig) {
+					continue
+				}
+			}
 
 			// Delete and add it back to the heap. We use the current time as the reference
 			// time, assuming that its previous schedule time is in the future.
@@ -191,6 +216,14 @@ func (w *CronWorker) refreshUpdatedJobConfigs(now time.Time) {
 				)
 				continue
 			}
+
+			// Do not add it back if the JobConfig no longer exists (or was since replaced
+			// by another JobConfig with the same name, which will be added separately).
+			if !w.isCurrentJobConfig(jobConfig) {
+				w.forget(jobConfig)
+				continue
+			}
+
 			if _, err := w.schedule.Bump(jobConfig, now); err != nil {
 				klog.ErrorS(err, "croncontroller: cannot bump updated job config in heap",
 					"namespace", jobConfig.Namespace,
@@ -203,6 +236,41 @@ func (w *CronWorker) refreshUpdatedJobConfigs(now time.Time) {
 			return
 		}
 	}
+}
+
+// remember records that the JobConfig was loaded into the schedule, and returns
+// false if it was already loaded previously.
+func (w *CronWorker) remember(jobConfig *execution.JobConfig) bool {
+	key, err := cache.MetaNamespaceKeyFunc(jobConfig)
+	if err != nil {
+		return false
+	}
+	if uid, ok := w.known[key]; ok && uid == jobConfig.GetUID() {
+		return false
+	}
+	if w.known == nil {
+		w.known = make(map[string]types.UID)
+	}
+	w.known[key] = jobConfig.GetUID()
+	return true
+}
+
+// forget is the reverse of remember, once the JobConfig is deleted.
+func (w *CronWorker) forget(jobConfig *execution.JobConfig) {
+	if key, err := cache.MetaNamespaceKeyFunc(jobConfig); err == nil && w.known[key] == jobConfig.GetUID() {
+		delete(w.known, key)
+	}
+}
+
+// isCurrentJobConfig returns true if the given JobConfig still exists in the
+// cache, i.e. it was not deleted or replaced by a different JobConfig with the
+// same name.
+func (w *CronWorker) isCurrentJobConfig(jobConfig *execution.JobConfig) bool {
+	current, err := w.jobconfigInformer.Lister().JobConfigs(jobConfig.GetNamespace()).Get(jobConfig.GetName())
+	if err != nil {
+		return false
+	}
+	return current.GetUID() == jobConfig.GetUID()
 }
 
 // syncOne reconciles a single JobConfig and enqueues Jobs to be created.
